@@ -9,26 +9,29 @@ Import ListNotations.
 Open Scope R_scope.
 
 (* one bootstrap (the refit loop runs range(1 - 1) = 0 times): exactly ONE call multivariate_normal(mean, cov, size) with
-   mean = the fitted coefficients, size = n_draws, cov = load_diagonal(reported covariance) = reported covariance + 2^-26 on the
-   diagonal (2^-26 = sqrt(machine eps) ~ 1.49e-8, absolute); the returned draws are the rows of that call's output, in order.
-   NOTE the property text says "covariance the reported coefficient covariance": see C17_mvn_cov_is_reported_refuted. *)
-Theorem C17_mvn_args : forall (coef : list R) (cov : list (list R)) (choice : list nat) (n_draws : nat),
+   mean = the fitted coefficients, size = n_draws, cov = load_diagonal(C, load = sqrt(EPS) * scale) for C = the reported covariance and
+   scale = distribution.scale, i.e. C + 2^-26 * scale on the diagonal; the returned draws are the rows of that call's output, in order. *)
+Theorem C17_mvn_args : forall (scale : R) (coef : list R) (cov : list (list R)) (choice : list nat) (n_draws : nat),
   (1 <= n_draws)%nat -> length choice = n_draws -> Forall (fun b => (b < 1)%nat) choice ->
   Gen_bootstrap_iterations 1 = 0%nat /\
-  Gen_simulate_calls (fst (Gen_bootstrap_lists coef cov [])) (snd (Gen_bootstrap_lists coef cov [])) choice
-    = [mk_mvn_call coef (Gen_load_diagonal cov) n_draws (seq 0 n_draws)] /\
+  Gen_simulate_calls (fst (Gen_bootstrap_lists scale coef cov [])) (snd (Gen_bootstrap_lists scale coef cov [])) choice
+    = [mk_mvn_call coef (Gen_load_diagonal scale cov) n_draws (seq 0 n_draws)] /\
   (forall i j, (i < length cov)%nat -> (j < length cov)%nat ->
-     entry (Gen_load_diagonal cov) i j = entry cov i j + (if Nat.eqb i j then / 67108864 else 0)) /\
+     entry (Gen_load_diagonal scale cov) i j = entry cov i j + (if Nat.eqb i j then / 67108864 * scale else 0)) /\
   (forall c out, mc_rows c = seq 0 n_draws -> length out = n_draws -> Gen_coef_draws [c] [out] n_draws = out).
-Proof. intros coef cov choice n_draws Hn Hl Hc.
-  exact (conj one_bootstrap_iterations (conj (mvn_args_one coef cov choice n_draws Hn Hl Hc)
-        (conj (load_diagonal_entry cov) (fun c out => assemble_one c out n_draws)))). Qed.
+Proof. intros scale coef cov choice n_draws Hn Hl Hc.
+  exact (conj one_bootstrap_iterations (conj (mvn_args_one scale coef cov choice n_draws Hn Hl Hc)
+        (conj (load_diagonal_entry scale cov) (fun c out => assemble_one c out n_draws)))). Qed.
 Print Assumptions C17_mvn_args.
 
-(* the literal reading "the covariance of the draws is the reported covariance" is false of the code *)
-Theorem C17_mvn_cov_is_reported_refuted : exists cov : list (list R), Gen_load_diagonal cov <> cov.
-Proof. exact mvn_cov_is_reported_refuted. Qed.
-Print Assumptions C17_mvn_cov_is_reported_refuted.
+(* "covariance = the reported coefficient covariance", as far as it holds: the reported covariance is scale * G (G = B B', C08/C01);
+   the matrix handed to the sampler is scale * (G + 2^-26 I): relative to the scale the perturbation is exactly 2^-26 on the diagonal
+   and 0 off it, whatever the units of the response *)
+Theorem C17_mvn_cov_is_scale_times_gram_plus_2p26 : forall (scale : R) (G : nat -> nat -> R) (cov : list (list R)) (i j : nat),
+  (i < length cov)%nat -> (j < length cov)%nat -> entry cov i j = scale * G i j ->
+  entry (Gen_load_diagonal scale cov) i j = scale * (G i j + (if Nat.eqb i j then / 67108864 else 0)).
+Proof. exact load_diagonal_scaled. Qed.
+Print Assumptions C17_mvn_cov_is_scale_times_gram_plus_2p26.
 
 (* simulated means: entry (d, i) = inverse link of (row i of the model matrix at sample_at_X) . (draw d); sample_at_X defaults to X *)
 Theorem C17_mu_pipeline : forall (mu : R -> R) (MM CD : list (list R)) (d i : nat),
@@ -60,19 +63,22 @@ Theorem C17_shapes : forall (mu : R -> R) (MM CD : list (list R)),
   (forall d, (d < length CD)%nat -> length (nth d (Gen_mu_draws mu MM CD) []) = length MM) /\
   (forall (A : Type) (f : R -> A) (M : list (list R)), length (Gen_y_args f M) = length M /\
      forall d, (d < length M)%nat -> length (nth d (Gen_y_args f M) []) = length (nth d M [])) /\
-  (forall cov, length (Gen_load_diagonal cov) = length cov /\ forall i, (i < length cov)%nat -> length (nth i (Gen_load_diagonal cov) []) = length cov).
+  (forall scale cov, length (Gen_load_diagonal scale cov) = length cov /\ forall i, (i < length cov)%nat -> length (nth i (Gen_load_diagonal scale cov) []) = length cov).
 Proof. intros mu MM CD.
   exact (conj coef_draws_length (conj (proj1 (mu_draws_shape mu MM CD)) (conj (proj2 (mu_draws_shape mu MM CD))
         (conj (fun A f M => y_args_shape f M) load_diagonal_shape)))). Qed.
 Print Assumptions C17_shapes.
 
 (* argument checks in execution order: unknown quantity -> ValueError (even on an unfitted model); unfitted -> AttributeError;
-   n_bootstraps < 1 or n_draws < 1 -> ValueError; otherwise the simulation runs *)
-Theorem C17_rejects : forall (q : string) (fitted : bool) (nd nb : Z),
+   n_bootstraps < 1 or n_draws < 1 -> ValueError; then, iff the source contains the validation block (generated flag
+   Gen_sample_validates_data), invalid y / X / weights (`valid = false`) -> ValueError; otherwise the simulation runs.
+   Proved for either value of the generated flag. *)
+Theorem C17_rejects : forall (q : string) (fitted valid : bool) (nd nb : Z),
   let ok := (q = "coef"%string \/ q = "mu"%string \/ q = "y"%string) in
-  (run_checks Gen_sample_checks q fitted nd nb = SValueError <-> (~ ok \/ (fitted = true /\ ((nb < 1)%Z \/ (nd < 1)%Z)))) /\
-  (run_checks Gen_sample_checks q fitted nd nb = SAttributeError <-> (ok /\ fitted = false)) /\
-  (run_checks Gen_sample_checks q fitted nd nb = SRun <-> (ok /\ fitted = true /\ (1 <= nb)%Z /\ (1 <= nd)%Z)).
+  let bad_data := (Gen_sample_validates_data = true /\ valid = false) in
+  (run_checks Gen_sample_checks q fitted valid nd nb = SValueError <-> (~ ok \/ (fitted = true /\ ((nb < 1)%Z \/ (nd < 1)%Z \/ bad_data)))) /\
+  (run_checks Gen_sample_checks q fitted valid nd nb = SAttributeError <-> (ok /\ fitted = false)) /\
+  (run_checks Gen_sample_checks q fitted valid nd nb = SRun <-> (ok /\ fitted = true /\ (1 <= nb)%Z /\ (1 <= nd)%Z /\ ~ bad_data)).
 Proof. exact rejects_iff. Qed.
 Print Assumptions C17_rejects.
 
